@@ -65,6 +65,12 @@ func c28run(ctx *vc.Ctx) {
 		for _, prog := range progs {
 			c28explore(ctx, kind, prog, bound)
 		}
+		// subscriptions that begin after, or race with, the end of the client: on an explicitly
+		// closed client, while another thread closes it, after the agent dropped the connection.
+		// The subscribe call may fail; its channel must be closed exactly once all the same.
+		for _, prog := range []string{"closed-before", "racing-close", "agent-dropped-before"} {
+			c28explore(ctx, kind, prog, bound-1)
+		}
 	}
 }
 
@@ -133,7 +139,20 @@ func c28explore(ctx *vc.Ctx, kind, prog string, bound int) {
 			userErr = append(userErr, "connect: "+err.Error())
 			return
 		}
+		late := prog == "closed-before" || prog == "racing-close" || prog == "agent-dropped-before"
+		switch prog {
+		case "closed-before":
+			cl.Close()
+			vsched.Quiesce()
+		case "agent-dropped-before":
+			pipe.CloseServer()
+			vsched.Quiesce()
+		}
 		vsched.Branching(true)
+		var closer vsched.Handle
+		if prog == "racing-close" {
+			closer = vsched.Spawn("closer", func() { cl.Close() })
+		}
 		user := vsched.Spawn("user", func() {
 			var handle client.StreamHandle
 			var err error
@@ -147,6 +166,9 @@ func c28explore(ctx *vc.Ctx, kind, prog string, bound int) {
 			}
 			if err != nil {
 				userErr = append(userErr, kind+": "+err.Error())
+				return
+			}
+			if late {
 				return
 			}
 			for _, op := range strings.Split(prog, ";") {
@@ -163,6 +185,9 @@ func c28explore(ctx *vc.Ctx, kind, prog string, bound int) {
 			}
 		})
 		user.Join()
+		if prog == "racing-close" {
+			closer.Join()
+		}
 		vsched.Branching(false)
 		vsched.Quiesce()
 		cl.Close()
@@ -191,13 +216,14 @@ func c28explore(ctx *vc.Ctx, kind, prog string, bound int) {
 		if !x.RootDone {
 			return "stuck", "deadlock", fmt.Sprintf("%s/%s blocked: %+v", kind, prog, x.Blocked)
 		}
-		if len(userErr) > 0 {
+		lateProg := prog == "closed-before" || prog == "racing-close" || prog == "agent-dropped-before"
+		if len(userErr) > 0 && !lateProg {
 			return "user-error:" + strings.Join(userErr, ","), "", ""
 		}
 		if !closedOK {
 			return "open", "subscriber-channel-not-closed " + kind, fmt.Sprintf("%s subscriber, user program %q: after Close() the subscriber channel is still open", kind, prog)
 		}
-		return fmt.Sprintf("closed,got=%d", got), "", ""
+		return fmt.Sprintf("closed,got=%d,errs=%d", got, len(userErr)), "", ""
 	}
 	ctx.Explore(vc.ExploreOpts{Name: kind + "/" + prog, Bound: bound, MaxSteps: 20000}, body, check)
 }
